@@ -14,10 +14,29 @@ def splitmix64 (i : UInt64) : UInt64 :=
   let z := (z ^^^ (z >>> 27)) * 0x94D049BB133111EB
   z ^^^ (z >>> 31)
 
+/-- a sketch and its true set: the union of these index ranges `(start, n)` of the splitmix64 stream -/
 structure Sk where
   h : H
-  start : Nat
-  n : Nat
+  ranges : List (Nat × Nat)
+
+/-- size of a union of index ranges -/
+def unionSize (ranges : List (Nat × Nat)) : Nat :=
+  let v := ((ranges.filter (·.2 > 0)).map (fun r => (r.1, r.1 + r.2))).toArray.qsort
+    (fun a b => a.1 < b.1 || (a.1 == b.1 && a.2 < b.2))
+  (v.foldl (fun (acc : Nat × Nat) r =>
+    let lo := max r.1 acc.2
+    if r.2 > lo then (acc.1 + (r.2 - lo), r.2) else acc) (0, 0)).1
+
+def Sk.n (s : Sk) : Nat := unionSize s.ranges
+
+/-- `add_hash(splitmix64(i))` for `start ≤ i < start + n` on top of `h` -/
+def addRange (h : H) (start n : Nat) : H := Id.run do
+  let mut h := h
+  for i in [0:n] do
+    h := h.add (splitmix64 (UInt64.ofNat (start + i))).toNat
+  return h
+
+def nzOf (h : H) : Nat := h.regs.foldl (fun n r => if r == 0 then n else n + 1) 0
 
 structure St where
   a : Option Sk := none
@@ -25,13 +44,7 @@ structure St where
 
 def build (p start n : Nat) : Option Sk :=
   match H.new p 21 with
-  | .ok h =>
-    let h := Id.run do
-      let mut h := h
-      for i in [0:n] do
-        h := h.add (splitmix64 (UInt64.ofNat (start + i))).toNat
-      return h
-    some { h := h, start := start, n := n }
+  | .ok h => some { h := addRange h start n, ranges := [(start, n)] }
   | .error _ => none
 
 def hex16 (x : UInt64) : String :=
@@ -51,19 +64,56 @@ def within (est truth scale p mult slack : Nat) : Bool :=
     if lhs ≥ 2 ^ 128 then false else if rhs * rhs ≥ 2 ^ 128 then true else decide (lhs ≤ rhs * rhs)
 
 def overlap (a b : Sk) : Nat × Nat :=
-  let lo := max a.start b.start
-  let hi := min (a.start + a.n) (b.start + b.n)
-  let inter := hi - lo
-  (inter, a.n + b.n - inter)
+  let union := unionSize (a.ranges ++ b.ranges)
+  (a.n + b.n - union, union)
 
 def stepC18 (st : St) (ws : List String) : St × Resp :=
   let which (w : String) : Option Sk := if w == "A" then st.a else st.b
   match ws with
   | "case" :: _ => (st, { model := "ok" })
+  | ["add", w, start, n] =>
+    -- more `add_hash` calls on a sketch that already has content
+    match which w with
+    | some s =>
+      let st := if w == "A" then { st with a := none } else { st with b := none }
+      let s : Sk := { h := addRange s.h start.toNat! n.toNat!, ranges := s.ranges ++ [(start.toNat!, n.toNat!)] }
+      let nz := nzOf s.h
+      (if w == "A" then { st with a := some s } else { st with b := some s }, { model := s!"nz={nz}" })
+    | none => (st, { model := "none" })
+  | ["upd", w, _api, _num, start, n] =>
+    -- `mh.update(&mut hll)`: the MinHash keeps every hash of the range (scaled = 1, or num ≥ n), and
+    -- `update` is `add_hash` over its mins (`H.update`; the order is irrelevant, `Sourmash.C17.order_independent`)
+    match which w with
+    | some s =>
+      let st := if w == "A" then { st with a := none } else { st with b := none }
+      let s : Sk := { h := addRange s.h start.toNat! n.toNat!, ranges := s.ranges ++ [(start.toNat!, n.toNat!)] }
+      let nz := nzOf s.h
+      (if w == "A" then { st with a := some s } else { st with b := some s }, { model := s!"nz={nz}" })
+    | none => (st, { model := "none" })
+  | ["reload", w, _route] =>
+    -- save / load is the identity on well-formed sketches with k < 256 (`Sourmash.C17.persist`)
+    match which w with
+    | some s =>
+      match load s.h.save with
+      | .ok h =>
+        let s : Sk := { s with h := h }
+        (if w == "A" then { st with a := some s } else { st with b := some s }, { model := s!"nz={nzOf h}" })
+      | .error _ => (st, { model := "err" })
+    | none => (st, { model := "none" })
+  | ["mrg", w] =>
+    let (dst, src) := if w == "A" then (st.a, st.b) else (st.b, st.a)
+    match dst, src with
+    | some d, some s =>
+      match d.h.merge s.h with
+      | .ok h =>
+        let d : Sk := { h := h, ranges := d.ranges ++ s.ranges }
+        (if w == "A" then { st with a := some d } else { st with b := some d }, { model := s!"nz={nzOf h}" })
+      | .error _ => (st, { model := "err" })
+    | _, _ => (st, { model := "none" })
   | [w, p, start, n] =>
     let sk := build p.toNat! start.toNat! n.toNat!
     let nz := match sk with
-      | some s => s.h.regs.foldl (fun n r => if r == 0 then n else n + 1) 0
+      | some s => nzOf s.h
       | none => 0
     if w == "A" then ({ st with a := sk }, { model := s!"nz={nz}" })
     else if w == "B" then ({ st with b := sk }, { model := s!"nz={nz}" })
